@@ -5,7 +5,7 @@ CONSTANTS
   MaxLen = 3
   Ops = {7}
   StopAtHit = TRUE
-  CheckFlags = FALSE
+  CheckFlags = TRUE
   Bug = "ClassOfOp7"
   Deviations = {}
 INVARIANTS Spelling RefinesCursor NoHitIfDone HitIfBound PairExact LoopReportExact
